@@ -575,7 +575,7 @@ func runC16(r *mc.Run) {
 		depth = 6
 		r.SetBudget(10 * 60 * 1e9)
 	} else {
-		r.SetBudget(150 * 1e9)
+		r.SetBudget(300 * 1e9)
 	}
 	r.Bounds["depth_blocks"] = depth
 	r.Rule = "DFS over relayer histories for group sizes 1..3: add/remove requests (single, duplicate, proposer, everybody, non-member, re-joining address), NewVoter with genuine proofs and 8 forged/replayed variants, AcceptProposer (right/wrong epoch, after timeout), block-hash votes by all members / with the joining member, time deltas {1,30,100}s (timeout 30s, period 100s); oracle = group invariants in every state, NewVoter accepted iff genuine for the current context, election timing predicate, EndBlocker never fails"
